@@ -204,19 +204,12 @@ def featureSuffix (sc : Scenario) : String :=
     | none => "") ++
   (if sc.bBody.enc == "cl" then "+declared" else "")
 
-def judgeE2E : Judge := liftJudge fun input obs => do
-  let sc := parseScenario input
-  match obsPanic obs with
-  | some m => pure { agree := false, spec := false, sig := "panic:e2e", note := m }
-  | none =>
-  if optStr obs "error" != "" then
-    return { agree := false, spec := true, note := "harness: " ++ optStr obs "error", nontrivial := false, tags := ["harness-error"] }
-  let o := parseOracle obs
+/-- Verdict for one request/response pair that went (or should have gone) to the backend;
+`res` is what the model says. -/
+def judgeOne (sc : Scenario) (obs : Json) (o : Oracle) (b : Built) (res : Result Sym) : Except String Verdict := do
   let hits := (optInt obs "hits").toNat
   let some c := parseSeenResp obs | throw "no client observation"
   let bSeen := parseSeenReq obs
-  let b := build sc o defaultMax
-  let res := runModel b o.canon
   let nobody := sc.method == "HEAD" || bodylessStatus c.status
   -- ---------------- agreement with the model
   let (agree, expected) : Bool × Json := match res with
@@ -236,8 +229,9 @@ def judgeE2E : Judge := liftJudge fun input obs => do
           && hdrEqOn keysB seen.hdr bs.hdr && bs.bodySum == seen.body.sum
         -- bodyless backend statuses: net/http itself drops Content-Type / Content-Length and the
         -- encoding headers carry no meaning; only the scenario's own headers are compared
-        let keysC := if bodylessStatus sc.bStatus then (b.backendHdr.map (·.1)).filter (· != "Content-Type")
-          else b.backendHdr.map (·.1) ++ [keyCE, keyVary]
+        let adKeys := match b.cfg.respAd with | some a => a.hkeys | none => []
+        let keysC := if bodylessStatus sc.bStatus then (b.backendHdr.map (·.1) ++ adKeys).filter (· != "Content-Type")
+          else b.backendHdr.map (·.1) ++ adKeys ++ [keyCE, keyVary]
         let okC := c.err == "" && c.status == cl.status && hdrEqOn keysC cl.hdr c.hdr && c.frameOK
           && (nobody || (c.bodySum == cl.payload.content.sum
                 && (cl.hdr.get keyCL == [] || cl.hdr.get keyCL == [toString c.declared])))
@@ -270,7 +264,8 @@ def judgeE2E : Judge := liftJudge fun input obs => do
       if c.status != sc.bStatus then s!"resp:status:{c.status}" ++ (if sc.method == "HEAD" then "+head" else "")
           ++ (if sc.compression ≥ 0 then "+pcomp" else "")
       else match Spec.respHeaderViolation
-          (if bodylessStatus sc.bStatus then b.backendHdr.filter (·.1 != "Content-Type") else b.backendHdr) c.hdr with
+          ((match b.cfg.respAd with | some a => adaptHeader a | none => id)
+            (if bodylessStatus sc.bStatus then b.backendHdr.filter (·.1 != "Content-Type") else b.backendHdr)) c.hdr with
         | some k => "resp:hdr-lost:" ++ k
         | none =>
           if nobody then ""
@@ -298,7 +293,122 @@ def judgeE2E : Judge := liftJudge fun input obs => do
   pure { agree := agree, spec := sig == "", sig := sig, expected := expected, tags := tags,
          nontrivial := hits ≥ 1 && (hopPresent || sc.body.len > 0 || sc.bBody.len > 0) }
 
-def judges : List (String × Judge) := [("unit", judgeUnit), ("e2e", judgeE2E)]
+def judgeE2E : Judge := liftJudge fun input obs => do
+  let sc := parseScenario input
+  match obsPanic obs with
+  | some m => pure { agree := false, spec := false, sig := "panic:e2e", note := m }
+  | none =>
+  if optStr obs "error" != "" then
+    return { agree := false, spec := true, note := "harness: " ++ optStr obs "error", nontrivial := false, tags := ["harness-error"] }
+  let o := parseOracle obs
+  let b := build sc o defaultMax
+  judgeOne sc obs o b (runModel b o.canon)
+
+/-! ## history judge (pool with memoryCache + response-editing filters) -/
+
+def hdrKeysNoDate (h : Hdr) : List String := (h.map (·.1)).filter (· != "Date")
+
+/-- A response served from the cache must be the response the creating miss produced:
+same status, same headers (all but `Date`), same body bytes, byte-exact framing. Stated on
+the two *observations* only. -/
+def hitViolation (first cur : SeenResp) : String :=
+  if cur.err != "" then "unreadable:" ++ cur.err
+  else if !cur.frameOK then "framing:" ++ cur.frameErr
+  else if cur.status != first.status then s!"status:{cur.status}"
+  else match (hdrKeysNoDate first.hdr ++ hdrKeysNoDate cur.hdr).find? (fun k => first.hdr.get k != cur.hdr.get k) with
+    | some k => "header:" ++ k
+    | none => if cur.bodySum != first.bodySum || cur.decErr != "" then "content" else ""
+
+def judgeHist : Judge := liftJudge fun input obs => do
+  match obsPanic obs with
+  | some m => pure { agree := false, spec := false, sig := "panic:hist", note := m }
+  | none =>
+  if optStr obs "error" != "" then
+    return { agree := false, spec := true, note := "harness: " ++ optStr obs "error", nontrivial := false, tags := ["harness-error"] }
+  let cfgJ := (input.getObjVal? "cfg").toOption.getD Json.null
+  let ccfg := (parseCache cfgJ).getD ⟨[], [], 0⟩
+  let steps ← getArr input "steps"
+  let obsSteps ← getArr obs "steps"
+  if steps.size != obsSteps.size then throw "steps/observations length mismatch"
+  let mut cache : Cache Sym := []
+  let mut agree := true
+  let mut sig := ""
+  let mut note := ""
+  let mut expected : Array Json := #[]
+  let mut tags : List String := []
+  -- per key: index of the step whose miss created the entry, and number of hits so far
+  let mut created : List (String × Nat) := []
+  let mut hitCount : List (String × Nat) := []
+  let mut maxHits : Nat := 0
+  let mut idx : Nat := 0
+  for (stJ, obJ) in steps.toList.zip obsSteps.toList do
+    let sc := parseStepScenario input stJ
+    let o := parseOracle obJ
+    let b := build sc o defaultMax
+    let key := cacheKey "http" sc.host o.decPath sc.method
+    let (cache', res) := runStep b.ops o.canon b.cfg ccfg cache b.q o.decPath b.reply
+    let stored : Bool := decide (cache'.length > cache.length)
+    cache := cache'
+    match res with
+    | .hit cl =>
+      let n := (hitCount.lookup key).getD 0 + 1
+      hitCount := (key, n) :: hitCount
+      maxHits := max maxHits n
+      let ord := if n == 1 then "hit1" else "hit2+"
+      tags := tags ++ [ord]
+      expected := expected.push (Json.mkObj [("step", idx), ("model", ord), ("status", cl.status), ("hdrs", hdrJson cl.hdr),
+        ("bodySum", cl.payload.content.sum)])
+      let some c := parseSeenResp obJ | throw "no client observation"
+      let hits := (optInt obJ "hits").toNat
+      let keysC := hdrKeysNoDate cl.hdr ++ b.backendHdr.map (·.1) ++ [keyCE, keyVary]
+      let nobody := sc.method == "HEAD" || bodylessStatus c.status
+      let ok := hits == 0 && c.err == "" && c.status == cl.status && hdrEqOn (keysC.filter (· != keyCL)) cl.hdr c.hdr && c.frameOK
+        && (nobody || (c.bodySum == cl.payload.content.sum && (cl.hdr.get keyCL == [] || cl.hdr.get keyCL == [toString c.declared])))
+      if !ok then
+        agree := false
+        if note == "" then note := s!"step {idx}: model says cache {ord}"
+      -- the property, observation against observation
+      let firstObs := (created.lookup key).bind fun m => (obsSteps.toList[m]?).bind parseSeenResp
+      match firstObs with
+      | some f =>
+        let v := hitViolation f c
+        if v != "" && sig == "" then
+          -- class of the violation only (framing / header / content / status): one replay per class
+          sig := "hist:" ++ ord ++ ":" ++ String.ofList (v.toList.takeWhile (· != ':'))
+          note := s!"step {idx} ({ord}) differs from the response of the creating miss: {v}"
+      | none => pure ()
+    | .miss seen cl ok =>
+      if stored then created := (key, idx) :: created
+      tags := tags ++ [if stored then "miss-stored" else "miss-not-stored"]
+      let v ← judgeOne sc obJ o b (.proxied seen cl ok)
+      expected := expected.push (Json.mkObj [("step", idx), ("model", "miss"), ("stored", stored), ("detail", v.expected)])
+      if !v.agree then
+        agree := false
+        if note == "" then note := s!"step {idx}: miss"
+      if !v.spec && sig == "" then sig := "hist:miss:" ++ v.sig
+    | .early st =>
+      let v ← judgeOne sc obJ o b (.early st)
+      expected := expected.push (Json.mkObj [("step", idx), ("model", "early")])
+      tags := tags ++ ["early"]
+      if !v.agree then agree := false
+      if !v.spec && sig == "" then sig := "hist:early:" ++ v.sig
+    | .adaptorFailed =>
+      let v ← judgeOne sc obJ o b .adaptorFailed
+      expected := expected.push (Json.mkObj [("step", idx), ("model", "adaptorFailed")])
+      if !v.agree then agree := false
+      if !v.spec && sig == "" then sig := "hist:adaptor:" ++ v.sig
+    idx := idx + 1
+  let respAd := (parseAd cfgJ "respAd")
+  let adTag := match respAd with
+    | none => "no-respAd"
+    | some a => "respAd" ++ (if a.body != "" then "+body" else "") ++ (if a.compress then "+compress" else "") ++
+        (if a.decompress then "+decompress" else "") ++ (if a.hkeys.isEmpty then "" else "+hdr")
+  pure { agree := agree, spec := sig == "", sig := sig, note := note, expected := Json.arr expected,
+         tags := tags.eraseDups ++ [adTag, s!"steps:{steps.size}", s!"max-hits-on-a-key:{min maxHits 3}"]
+                 ++ (if optInt cfgJ "compression" (-1) ≥ 0 then ["pcomp"] else []),
+         nontrivial := maxHits ≥ 2 }
+
+def judges : List (String × Judge) := [("unit", judgeUnit), ("e2e", judgeE2E), ("hist", judgeHist)]
 
 end Driver.C03
 
